@@ -236,6 +236,49 @@ def compare(got, want, B):
     return got == want
 
 
+def read_faults(r, tier):
+    """WSGI: one read() of wsgi.input fails with a connection error (the one departure from the default environment answer), at
+    every position, the reads after it succeed again; every sequence of <= 2 (thorough: 3) accesses. Whatever an access returns
+    after that - it may well raise - is the value of the whole body: never the part that was still unread."""
+    import json as _json
+    from baize.wsgi import Request
+    depth = 2 if tier == "quick" else 3
+    for kind, (B, ct) in KINDS.items():
+        if len(B) < 3:
+            continue
+        third = max(len(B) // 3, 1)
+        chunks = [B[:third], B[third:2 * third], B[2 * third:]]
+        for fail_at in range(0, len(chunks) + 1):
+            for n in range(1, depth + 1):
+                for seq in itertools.product([a for a in ACCESSES if a != "close"] + ["obtain", "drain"], repeat=n):
+                    if "drain" in seq and "obtain" not in seq[:seq.index("drain")]:
+                        continue
+                    areq = make_req(kind, chunks)
+                    env = SV.to_environ(areq)
+                    inp = env["wsgi.input"] = SV.ScriptedInput(chunks, fail_at=fail_at)
+                    req = Request(env)
+                    keep, results = [], []
+                    r.count("evaluations")
+                    r.count("traces")
+                    for i, op in enumerate(seq):
+                        got, obj = wsgi_access(req, op, keep)
+                        results.append(got)
+                        bad = None
+                        if got[0] == "v" and op in ("body", "stream_full", "drain") and got[1] != B:
+                            bad = f"returned {got[1]!r:.60}, the body is {B!r:.60}"
+                        elif got[0] == "v" and op == "json" and got[1] != _json.loads(B):
+                            bad = f"returned {got[1]!r:.60} for the document {B!r:.60}"
+                        elif got[0] == "form" and not compare(got, ("form", EXPECT_FORM[kind]), B):
+                            bad = f"returned the form {got[1]!r:.80}, the body holds {EXPECT_FORM[kind]!r:.80}"
+                        if bad:
+                            r.violation(f"readfault:{op}:truncated", {"mode": "readfault", "kind": kind, "fail_at": fail_at, "seq": list(seq)},
+                                        f"wsgi {kind} body in chunks {[len(c) for c in chunks]}, read number {fail_at} of wsgi.input fails once with ConnectionResetError, accesses {list(seq)} gave {results!r:.200}: step {i} ({op}) {bad}")
+                            break
+                    if inp.failed:
+                        r.count("distinct_nontrivial")
+    r.sample({"mode": "readfault", "kinds": [k for k, v in KINDS.items() if len(v[0]) >= 3], "fail_at": "every read", "depth": depth})
+
+
 def run_sequence(iface, kind, chunks, seq, disc_at=None):
     """Returns (problems, ref_key, results)."""
     if iface == "wsgi":
@@ -315,6 +358,11 @@ def run_sequence_asgi(kind, chunks, seq, disc_at):
     from baize.asgi import Request
 
     areq = make_req(kind, chunks)
+    if isinstance(disc_at, str):
+        # "k+cl": the client announced no more than what it had sent when it went away; the final message still never came,
+        # and the length a client announces is not what ends a body
+        disc_at = int(disc_at.split("+")[0])
+        areq.headers = list(areq.headers) + [("Content-Length", str(sum(len(c) for c in chunks[:disc_at])))]
     msgs = SV.to_messages(areq, disconnect_at=disc_at)
     state = {"i": 0, "extra": 0, "gone": False, "polling": False}
     problems = []
@@ -673,7 +721,7 @@ def big_bodies(r):
 
 
 def shards(tier, seed):
-    out = [("big",), ("subrequests",)] + [("two", k, 8) for k in range(8)]
+    out = [("big",), ("subrequests",), ("readfault",)] + [("two", k, 8) for k in range(8)]
     for iface in ("wsgi", "asgi"):
         for kind in KINDS:
             out.append(("seq", iface, kind))
@@ -693,6 +741,10 @@ def run_shard(desc, tier):
     if desc[0] == "two":
         two_requests(r, desc[1], desc[2])
         return r
+    if desc[0] == "readfault":
+        read_faults(r, tier)
+        r.count("states", 1)
+        return r
     if desc[0] == "subrequests":
         sub_requests(r)
         r.count("states", 1)
@@ -705,6 +757,8 @@ def run_shard(desc, tier):
         if iface == "asgi":
             base = [B[:1], B[1:]] if len(B) > 1 else [B]
             variants += [(base, d) for d in range(len(base) + 0)] + [([B], 0)]
+            if len(B) > 2:
+                variants += [(base, "1+cl"), ([B[:1], B[1:2], B[2:]], "2+cl")]
         for chunks, disc_at in variants:
             for n in range(1, DEPTH[tier] + 1):
                 for seq in itertools.product(ACCESSES + ["obtain", "drain"] + (["poll"] if iface == "asgi" else []), repeat=n):
@@ -774,6 +828,11 @@ def replay(w):
         x = run_two_requests(list(w["schedule"]), tuple(w["kinds"]), tuple(tuple(a) for a in w["accessors"]))
         solo = [run_sequence_asgi(k, [KINDS[k][0]], tuple(a), None)[2] for k, a in zip(w["kinds"], w["accessors"])]
         return x.obs["results"] != solo or bool(x.obs["stuck"]), {"results": x.obs["results"], "alone": solo}
+    if w["mode"] == "readfault":
+        rr = R()
+        read_faults(rr, "quick")
+        hits = {k: v for k, v in rr.viol.items() if v[1]["kind"] == w["kind"]}
+        return bool(hits), {"violations": sorted(hits), "texts": [v[2][:300] for v in hits.values()]}
     if w["mode"] == "seq":
         probs, key, results = run_sequence(w["iface"], w["kind"], w["chunks"], tuple(w["seq"]), w["disc_at"])
         return bool(probs), {"problems": [p[:3] for p in probs], "results": results}
